@@ -90,7 +90,7 @@ def evaluate(case):
 
 def cases(tier, seed):
     fams = ["shipped", "constant", "invB-linear", "kinked", "vaporised"]
-    grids = ["uniform", "geometric", "irregular"] if tier == "thorough" else ["uniform", "irregular"]
+    grids = ["uniform", "geometric", "irregular", "integer"] if tier == "thorough" else ["uniform", "irregular", "integer"]
     sos = [None, 0.2, 0.5, 0.8]
     phis = [0.05, 0.1, 0.3]
     sws = [0.0, 0.1, 0.25]
